@@ -72,7 +72,7 @@ FINDINGS += [
  # ---- C02
  K("C02", "C02 twistededwards PointExtended.MixedAdd same point with Z != 1", "PointExtended.MixedAdd(p1,p2) with p1 and p2 the same point and p1.Z != 1 calls MixedDouble, which assumes Z = 1: off-curve result", r"^C02 te \S+ \S+ \S+ \S+ eMixedAdd ", r".", r".", "ecc/*/twistededwards/point.go:530", ""),
  K("C02", "C02 IsInSubGroup accepts order-3 points (bw6-633 G1, bw6-761 G2)", "IsInSubGroup (affine and Jacobian) accepts (0, ±sqrt b) of order 3 on bw6-633 G1 and bw6-761 G2 (see C07)", r"^C02 sw bw6-(633\.G1|761\.G2) .* [aj]InSub ", r"^1$", r"^0$", "ecc/bw6-633/g1.go:483, ecc/bw6-761/g2.go:493", ""),
- K("C02", "C02 stark-curve g1JacExtended doubleMixed uses ZZ² instead of a = 1", "stark-curve g1JacExtended.doubleMixed / doubleNegMixed (and the same-point branch of addMixed/subMixed) add the receiver's ZZ² instead of the curve coefficient a = 1 (unexported, only reachable from tests)", r"^C02 sw stark-curve\.G1 .* x(DoubleMixed|DoubleNegMixed|AddMixed|SubMixed) ", r".", r".", "ecc/stark-curve/g1.go:802,832", ""),
+ F("C02", "C02 stark-curve g1JacExtended doubleMixed uses ZZ² instead of a = 1", "09230d9", "stark-curve g1JacExtended.doubleMixed / doubleNegMixed (and the same-point branch of addMixed/subMixed) added the receiver's ZZ² instead of the curve coefficient a = 1 (unexported, reached through the c02shim wrappers)", "C02 sw stark-curve.G1 … xDoubleMixed …", "ecc/stark-curve/g1.go:802,832"),
  # ---- C03
  K("C03", "C03 bandersnatch GLV: sub-scalars reduced modulo the wrong modulus / phi(O)", "bandersnatch scalarMulGLV reduces the sub-scalars modulo the bls12-381 scalar field instead of the subgroup order (wrong results from |s| ≈ 2^640) and phi(O) has Z = 0 so [s]O = (0;0) whenever k2 != 0", r"^C03 tex? \S+ bandersnatch ", r".", r".", "ecc/bls12-381/bandersnatch/endomorpism.go scalarMulGLV", ""),
 ]
@@ -96,7 +96,7 @@ FINDINGS += [
  F('C20', 'C20 Lagrange-form Evaluate at a domain point', 'ef1f9bd', 'Lagrange / LagrangeCoset Evaluate returned 0 at every point of the domain / coset', 'C20 evalpt bn254 <q> 7 <w128> <g> 20 lr 1,2 E1   (Go 0; model 1)', 'ecc/*/fr/iop/polynomial.go evaluate/evalLagrange:204-241'),
  F('C20', 'C20 GetCoeff with negative shift', '94e1bed', 'GetCoeff panicked (negative index) for a negative shift', 'C20 getcoeff bn254 <q> 7 <w128> <g> 20 lr 1,2 S-1,G   (Go panic; model 2,1)', 'ecc/*/fr/iop/polynomial.go GetCoeff:151-162'),
  F('C20', 'C20 iop.Evaluate with a negatively shifted operand', '94e1bed', 'iop.Evaluate with a negatively shifted operand aborted the process (GetCoeff panic inside a parallel.Execute goroutine)', 'C20 expr bn254 <q> 7 <w128> <g> lr nil 0 1 lr 1,2 -1 2', 'ecc/*/fr/iop/expressions.go Evaluate:57-65; polynomial.go GetCoeff:156'),
- K('C20', 'C20 WriteTo/ReadFrom negative shift', 'WriteTo stores uint32(shift), ReadFrom reads int(uint32): a negative shift comes back as 2^32-|s|', '^C20 (ser \\S+ \\S+ \\S+ \\S+ \\S+ \\S+ \\S+ \\S+ \\S*S-[0-9a-f]+,w|read )', '^([a-z]{2}/|ok \\S+ \\S+ )[89a-f][0-9a-f]{7}[/ ]', '^([a-z]{2}/|ok \\S+ \\S+ )-', 'ecc/*/fr/iop/polynomial.go WriteTo:405 / ReadFrom:456', 'C20 ser bn254 <q> 7 <w128> <g> 20 cr 1,2 S-1,w,F   (Go cr/ffffffff/2/1,2; model cr/-1/2/1,2)'),
+ F('C20', 'C20 WriteTo/ReadFrom negative shift', '05a063a', 'WriteTo stores uint32(shift), ReadFrom read int(uint32): a negative shift came back as 2^32-|s|', 'C20 ser bn254 <q> 7 <w128> <g> 20 cr 1,2 S-1,w', 'ecc/*/fr/iop/polynomial.go WriteTo:405 / ReadFrom:456'),
  F('C20', 'C20 ToLagrangeCoset on a domain of size 1', 'de7cbd2', 'ToLagrangeCoset panicked on a domain of size 1 (cosetTable[1])', "", ""),
  F('C20', 'C20 BuildRatioShuffledVectors with a single pair', '2e0cf2c', 'checkSize iterated j over len(pols): BuildRatioShuffledVectors with a single pair panicked, extra polynomials went unchecked', "", ""),
  F('C20', 'C20 ratio builders, LagrangeCoset result: coset shift not recorded', '6c9b665', 'ratio builders / iop.Evaluate results in LagrangeCoset form left coset = 0 so Evaluate divided by 0', "", ""),
@@ -117,6 +117,5 @@ FINDINGS += [
 ]
 
 FINDINGS += [
- K("C06", "C06 GT.IsInSubGroup(0) is true (bn254, bls12-377, bls24-315, bw6-761, bw6-633)", "E12/E24/E6.IsInSubGroup reports the zero element (not a unit, accepted by SetBytes) as a member of GT on bn254, bls12-377, bls24-315, bw6-761 and bw6-633: every test is of the form Frobenius^i(z) == chain(z) and both sides are 0; bls12-381 and bls24-317 answer false",
-   op=r"^C06 (bn254|bls12_377|bls24_315|bw6_761|bw6_633) E\d+ insub 0(,0)*$", go="^1$", model="^0$", where="ecc/*/internal/fptower/e12.go|e24.go|e6.go IsInSubGroup", replay="C06 bn254 E12 insub 0,0,0,0,0,0,0,0,0,0,0,0"),
+ F("C06", "C06 GT.IsInSubGroup(0) is true (bn254, bls12-377, bls24-315, bw6-761, bw6-633)", "d82b8dc", "E12/E24/E6.IsInSubGroup reported the zero element (not a unit, accepted by SetBytes) as a member of GT on bn254, bls12-377, bls24-315, bw6-761 and bw6-633: every test is of the form Frobenius^i(z) == chain(z) and both sides are 0", "C06 bn254 E12 insub 0,0,0,0,0,0,0,0,0,0,0,0", "ecc/*/internal/fptower/e12.go|e24.go|e6.go IsInSubGroup"),
 ]
